@@ -316,7 +316,7 @@ def run_cases(docs, flats, cases, wd, kind="native", mode="eval", tag="c02", fla
                     ev["toks"] = toks or []; ev["lexok"] = toks is not None
             ev["nsmap"] = [{"p": xdm.cps(k_), "u": xdm.cps(v_)} for k_, v_ in sorted(NSMAP.items())]
             r = res[k]
-            for f in ("error", "res", "matched"):
+            for f in ("error", "res", "matched", "targets"):
                 if f in r:
                     ev[f] = r[f]
             events.append(ev)
